@@ -383,7 +383,8 @@ func (su *suite) run(sc *scenario) {
 		r.Fatalf("tmp: %v", err)
 	}
 	defer os.RemoveAll(dir)
-	s := &sim{r: r, sc: sc, w: sc.w, rnd: r.Rand(sc.stream()), ornd: r.Rand(sc.stream() + "-oracle"), stats: map[string]int{}, offered: map[hash.SHA256Hash]bool{}, phase: "setup"}
+	s := &sim{r: r, sc: sc, w: sc.w, rnd: r.Rand(sc.stream()), ornd: r.Rand(sc.stream() + "-oracle"), stats: map[string]int{}, offered: map[hash.SHA256Hash]bool{}, phase: "setup",
+		announced: map[announce]bool{}, createdAt: map[hash.SHA256Hash]int{}}
 	for i := 0; i < sc.n; i++ {
 		n, err := newNode(dir, i, sc.tmpl[i], sc.init[i], 24*3600*1000)
 		if err != nil {
@@ -539,6 +540,19 @@ func (su *suite) run(sc *scenario) {
 	}
 
 	// ---- evidence
+	for _, ref := range s.created {
+		at := s.nodes[s.createdAt[ref]]
+		for _, j := range at.nbrs {
+			if s.announced[announce{at.idx, j, ref}] {
+				s.stat("created_transactions_announced_by_ref_to_a_neighbour", 1)
+			} else {
+				s.stat("created_transactions_not_announced_by_ref_to_a_neighbour", 1)
+			}
+		}
+	}
+	if s.stats["gossip_refs_reannounced_to_same_peer"] > 0 {
+		r.Unspecified("a Gossip announced a ref to the same peer more than once")
+	}
 	for k, v := range s.stats {
 		r.Count(k, v)
 	}
